@@ -72,20 +72,34 @@ type replayFile struct {
 	Gen  *genCase `json:"gen,omitempty"`
 }
 
-func strProgram(s, p string, n int) string {
-	return fmt.Sprintf(`var s = %s; var p = %s
-put [(str:split &max=%d $p $s)]
+const (
+	progPair  = 1
+	progUnary = 2
+	progBoth  = 3
+)
+
+// one Elvish program per case: 11 outputs for the (s, p, n) builtins, 9 for the builtins of s alone
+func strProgram(s, p string, n int, which int) string {
+	var sb strings.Builder
+	fmt.Fprintf(&sb, "var s = %s; var p = %s\n", elv.Quote(s), elv.Quote(p))
+	if which&progPair != 0 {
+		fmt.Fprintf(&sb, `put [(str:split &max=%d $p $s)]
 put (str:join $p [(str:split &max=%d $p $s)])
 put (str:has-prefix $s $p) (str:has-suffix $s $p) (str:trim-prefix $s $p) (str:trim-suffix $s $p)
 put (str:index $s $p) (str:last-index $s $p) (str:contains $s $p) (str:count $s $p)
-put [(str:to-codepoints $s)]
+put [(try { re:find (re:quote $p) $s | each {|m| put [$m[start] $m[end]] } } catch { put err })]
+`, n, n)
+	}
+	if which&progUnary != 0 {
+		sb.WriteString(`put [(str:to-codepoints $s)]
 put (str:from-codepoints (str:to-codepoints $s))
 put [(str:to-utf8-bytes $s)]
 put [(try { str:from-utf8-bytes (str:to-utf8-bytes $s) } catch { })]
 put [(str:split '' $s)]
 put (str:trim-space $s) (str:to-upper $s) (str:to-lower $s) (str:to-title $s)
-put [(try { re:find (re:quote $p) $s | each {|m| put [$m[start] $m[end]] } } catch { put err })]`,
-		elv.Quote(s), elv.Quote(p), n, n)
+`)
+	}
+	return sb.String()
 }
 
 func asStr(v any) ([]int, bool) {
@@ -162,10 +176,11 @@ func asRanges(v any) (rs [][]int, sawErr bool, ok bool) {
 
 // recordStr runs every str: builtin of the check on (s, p, n). An error return means the
 // program did not produce the expected shape (an exception, a panic, a wrong kind of value).
-func recordStr(pool *evPool, s, p []int, n int) (strCase, error) {
-	code := strProgram(string(toBytes(s)), string(toBytes(p)), n)
+func recordStr(pool *evPool, s, p []int, n int, which int) (strCase, error) {
+	code := strProgram(string(toBytes(s)), string(toBytes(p)), n, which)
 	o := pool.run(code)
-	sc := strCase{S: s, P: p, N: n}
+	sc := strCase{S: s, P: p, N: n, Split: [][]int{}, Join: []int{}, Tp: []int{}, Ts: []int{}, Cps: []int{}, Back: []int{}, Bytes: []int{},
+		Bback: [][]int{}, Chars: [][]int{}, Trim: []int{}, Up: []int{}, Lo: []int{}, Ti: []int{}, Qr: [][]int{}}
 	if o.Panic != "" {
 		return sc, fmt.Errorf("panic: %s", firstLine(o.Panic))
 	}
@@ -173,33 +188,67 @@ func recordStr(pool *evPool, s, p []int, n int) (strCase, error) {
 		return sc, fmt.Errorf("exception: %v", o.Err)
 	}
 	v := o.Values
-	if len(v) != 20 {
-		return sc, fmt.Errorf("%d outputs, want 20", len(v))
+	want := 0
+	if which&progPair != 0 {
+		want += 11
 	}
-	ok := make([]bool, 24)
-	sc.Split, ok[0] = asStrList(v[0])
-	sc.Join, ok[1] = asStr(v[1])
-	sc.Hp, ok[2] = v[2].(bool)
-	sc.Hs, ok[3] = v[3].(bool)
-	sc.Tp, ok[4] = asStr(v[4])
-	sc.Ts, ok[5] = asStr(v[5])
-	sc.Idx, ok[6] = asInt(v[6])
-	sc.Lidx, ok[7] = asInt(v[7])
-	sc.Cont, ok[8] = v[8].(bool)
-	sc.Cnt, ok[9] = asInt(v[9])
-	sc.Cps, ok[10] = asIntList(v[10])
-	sc.Back, ok[11] = asStr(v[11])
-	sc.Bytes, ok[12] = asIntList(v[12])
-	sc.Bback, ok[13] = asStrList(v[13])
-	sc.Chars, ok[14] = asStrList(v[14])
-	sc.Trim, ok[15] = asStr(v[15])
-	sc.Up, ok[16] = asStr(v[16])
-	sc.Lo, ok[17] = asStr(v[17])
-	sc.Ti, ok[18] = asStr(v[18])
-	sc.Qr, sc.Qerr, ok[19] = asRanges(v[19])
-	for i := 0; i < 20; i++ {
-		if !ok[i] {
-			return sc, fmt.Errorf("output %d has an unexpected kind: %s", i, vals.ReprPlain(v[i]))
+	if which&progUnary != 0 {
+		want += 9
+	}
+	if len(v) != want {
+		return sc, fmt.Errorf("%d outputs, want %d", len(v), want)
+	}
+	ok := make([]bool, 0, 20)
+	add := func(b bool) { ok = append(ok, b) }
+	var b bool
+	if which&progPair != 0 {
+		sc.Split, b = asStrList(v[0])
+		add(b)
+		sc.Join, b = asStr(v[1])
+		add(b)
+		sc.Hp, b = v[2].(bool)
+		add(b)
+		sc.Hs, b = v[3].(bool)
+		add(b)
+		sc.Tp, b = asStr(v[4])
+		add(b)
+		sc.Ts, b = asStr(v[5])
+		add(b)
+		sc.Idx, b = asInt(v[6])
+		add(b)
+		sc.Lidx, b = asInt(v[7])
+		add(b)
+		sc.Cont, b = v[8].(bool)
+		add(b)
+		sc.Cnt, b = asInt(v[9])
+		add(b)
+		sc.Qr, sc.Qerr, b = asRanges(v[10])
+		add(b)
+		v = v[11:]
+	}
+	if which&progUnary != 0 {
+		sc.Cps, b = asIntList(v[0])
+		add(b)
+		sc.Back, b = asStr(v[1])
+		add(b)
+		sc.Bytes, b = asIntList(v[2])
+		add(b)
+		sc.Bback, b = asStrList(v[3])
+		add(b)
+		sc.Chars, b = asStrList(v[4])
+		add(b)
+		sc.Trim, b = asStr(v[5])
+		add(b)
+		sc.Up, b = asStr(v[6])
+		add(b)
+		sc.Lo, b = asStr(v[7])
+		add(b)
+		sc.Ti, b = asStr(v[8])
+		add(b)
+	}
+	for i, b := range ok {
+		if !b {
+			return sc, fmt.Errorf("output %d has an unexpected kind: %s", i, vals.ReprPlain(o.Values[i]))
 		}
 	}
 	return sc, nil
@@ -247,6 +296,7 @@ type gen struct {
 	pool     *evPool
 	mu       sync.Mutex
 	nCases   int
+	nLeft    int
 	caseLeft []strCase // unary cases whose case images are not unique or not specified: to the judge
 }
 
@@ -263,7 +313,7 @@ func canon(v any) string {
 
 func (g *gen) runJob(dir string, j genJob) error {
 	c := g.c
-	r, err := c.TLC("GenStrRe:"+j.name, lib.TLCRun{Dir: dir, Module: "MCStrRe", Workers: 4, Timeout: 12 * time.Minute,
+	r, err := c.TLC("GenStrRe:"+j.name, lib.TLCRun{Dir: dir, Module: "MCStrRe", Workers: 4, Timeout: 25 * time.Minute,
 		Files: map[string][]byte{"MCStrRe.cfg": mcCfg(j.family, j.ls, j.lp, j.alpha, j.ns, "INVARIANT Emit\n")}})
 	if err != nil {
 		return err
@@ -329,7 +379,11 @@ func (g *gen) replayGen(gc *genCase) error {
 		c.Distinct(fmt.Sprintf("%s|%x|%x|%d", gc.F, toBytes(gc.S), toBytes(gc.P), gc.N))
 	}
 	c.AddEvals(1)
-	sc, err := recordStr(g.pool, gc.S, gc.P, gc.N)
+	which := progPair
+	if gc.F != "pair" {
+		which = progUnary
+	}
+	sc, err := recordStr(g.pool, gc.S, gc.P, gc.N, which)
 	key := func(field string) string {
 		return fmt.Sprintf("%s:%s:s=%x:p=%x:n=%d", gc.F, field, toBytes(gc.S), toBytes(gc.P), gc.N)
 	}
@@ -388,10 +442,18 @@ func (g *gen) replayGen(gc *genCase) error {
 			left = true
 		}
 	}
-	if left {
+	if left { // alternative or unspecified case images: the judge decides (it reads every field)
 		g.mu.Lock()
-		g.caseLeft = append(g.caseLeft, sc)
+		g.nLeft++
+		take := c.Thorough() || g.nLeft%3 == 0
 		g.mu.Unlock()
+		if take {
+			if full, err := recordStr(g.pool, gc.S, gc.P, gc.N, progBoth); err == nil {
+				g.mu.Lock()
+				g.caseLeft = append(g.caseLeft, full)
+				g.mu.Unlock()
+			}
+		}
 	}
 	return nil
 }
@@ -439,7 +501,7 @@ func randomStrCases(c *lib.Ctx, pool *evPool, n int) []strCase {
 	out := make([]strCase, n)
 	bad := make([]error, n)
 	lib.Parallel(n, 6, func(i int) {
-		out[i], bad[i] = recordStr(pool, inputs[i][0].([]int), inputs[i][1].([]int), inputs[i][2].(int))
+		out[i], bad[i] = recordStr(pool, inputs[i][0].([]int), inputs[i][1].([]int), inputs[i][2].(int), progBoth)
 	})
 	c.AddEvals(n)
 	var res []strCase
@@ -482,7 +544,7 @@ func replay(c *lib.Ctx) error {
 		}
 		return nil
 	case "str":
-		k, err := recordStr(pool, f.Case.Str.S, f.Case.Str.P, f.Case.Str.N)
+		k, err := recordStr(pool, f.Case.Str.S, f.Case.Str.P, f.Case.Str.N, progBoth)
 		if err != nil {
 			c.Reject(fmt.Sprintf("str:run:s=%x:p=%x:n=%d", toBytes(k.S), toBytes(k.P), k.N), err.Error(), f.Case)
 			return nil
